@@ -642,6 +642,10 @@ impl<T: Transport, E: UtpEnvironment> Dispatcher<T, E> {
     }
 
     async fn on_syn(&mut self, remote: SocketAddr, msg: UtpMessage) -> crate::Result<()> {
+        // An accept call may have been queued since the backlog was last served: the cached
+        // SYNs are older than this one and go first.
+        self.cleanup_accept_queue()?;
+
         let mut syn = Syn {
             remote,
             header: msg.header,
